@@ -19,7 +19,7 @@ Proof. unfold ClInv, clinit; cbn. repeat split; reflexivity. Qed.
 
 Lemma clinv_step c a : ClInv c -> ClInv (clstep c a).
 Proof.
-  destruct c as [at_ im jo sn cl no dn]. unfold ClInv. cbn [cl_atomic cl_inmap cl_joined cl_snap cl_cleared cl_notified cl_done].
+  destruct c as [at_ im jo sn cl no dn gt]. unfold ClInv. cbn [cl_atomic cl_inmap cl_joined cl_snap cl_cleared cl_notified cl_done].
   intros [A I]. subst at_.
   destruct a, sn as [[|] |], im, jo, cl, no, dn; cbn in *; intuition congruence.
 Qed.
@@ -42,8 +42,20 @@ Proof.
   - destruct I as (_ & _ & X & _). congruence.
 Qed.
 
+(* ... and an item pushed once both are done reaches it exactly when it was not handed the terminal: it gets the terminal or the item *)
+Theorem close_then_push_terminal_xor_item acts :
+  let c := clrun acts (clinit true) in
+  cl_joined c = true -> cl_done c = true ->
+  let c' := clstep c ClPush in
+  (cl_notified c' = true /\ cl_got c' = cl_got c) \/ (cl_notified c' = false /\ cl_got c' = true).
+Proof.
+  intros c J D c'. destruct (close_never_loses_a_subscriber acts J D) as [[N M] | [N M]]; fold c in N, M.
+  - left. unfold c'. cbn [clstep cl_notified cl_got]. rewrite N, M. cbn. split; [reflexivity | apply orb_false_r].
+  - right. unfold c'. cbn [clstep cl_notified cl_got]. rewrite N, M. cbn. split; [reflexivity | apply orb_true_r].
+Qed.
+
 (* pinned code (snapshot and clear in two sections): the subscriber that registers in between is in neither *)
 Lemma two_section_close_loses_a_subscriber :
-  let c := clrun [ClSnap; ClJoin; ClClear; ClNotify] (clinit false) in
-  cl_joined c = true /\ cl_done c = true /\ cl_notified c = false /\ cl_inmap c = false.
+  let c := clrun [ClSnap; ClJoin; ClClear; ClNotify; ClPush] (clinit false) in
+  cl_joined c = true /\ cl_done c = true /\ cl_notified c = false /\ cl_inmap c = false /\ cl_got c = false.
 Proof. vm_compute. repeat split. Qed.
